@@ -493,8 +493,8 @@ int main(int argc, char** argv) {
         KEY_SV(ks, body) \
         else { const string& KEY = ks; body; } } while (0)
       if (op == "reset") { for (int i = 0; i < 3; i++) { JsonDocument e(&HSPY[i]); swap(docs[i], e); } for (auto& r : refs) r = JsonVariant(); for (auto& s : HSPY) { s.resetCounters(); s.logging = true; } GLOG.clear(); }
-      else if (op == "geo") { int a, b, c, so; is >> a >> b >> c >> so;
-        if (a != ARDUINOJSON_POOL_CAPACITY || b != ARDUINOJSON_INITIAL_POOL_COUNT || c != ARDUINOJSON_SLOT_ID_SIZE || so != (int)StringNode::sizeForLength(0)) { std::cout << "geo-mismatch\n"; continue; } }
+      else if (op == "geo") { int a, b, c, so; unsigned long long mx = StringNode::maxLength; is >> a >> b >> c >> so; is >> mx;
+        if (a != ARDUINOJSON_POOL_CAPACITY || b != ARDUINOJSON_INITIAL_POOL_COUNT || c != ARDUINOJSON_SLOT_ID_SIZE || so != (int)StringNode::sizeForLength(0) || mx != (unsigned long long)StringNode::maxLength) { std::cout << "geo-mismatch\n"; continue; } }
       else if (op == "root") { int r, d; is >> r >> d; refs[r] = docs[d].as<JsonVariant>(); }
       else if (op == "mem") { int r, r2; string k, kk; is >> r >> r2 >> k >> kk; string key = unhex(k); JsonVariant v; WITHKEY(kk, key, v = refs[r2][KEY]); refs[r] = v; }
       else if (op == "memw") { int r, r2; string k, kk; is >> r >> r2 >> k >> kk; string key = unhex(k); JsonVariant v; WITHKEY(kk, key, v = refs[r2][KEY].template to<JsonVariant>()); refs[r] = v; }
@@ -548,8 +548,8 @@ int main(int argc, char** argv) {
         JsonString js = v.as<JsonString>();
         snprintf(buf, sizeof buf, "i64=%lld u64=%llu i8=%d f=%08x d=%016llx b=%d is=%d%d%d%d%d%d%d%d str=%s", (long long)v.as<long long>(), (unsigned long long)v.as<unsigned long long>(), (int)v.as<signed char>(),
                  fb, (unsigned long long)gb, (int)v.as<bool>(), (int)v.is<long long>(), (int)v.is<double>(), (int)v.is<bool>(), (int)v.is<const char*>(), (int)v.is<JsonString>(),
-                 (int)v.is<JsonArrayConst>(), (int)v.is<JsonObjectConst>(), (int)v.isNull(), js.c_str() ? ("S" + hexs(js.c_str(), js.size())).c_str() : "null");
-        out = buf;
+                 (int)v.is<JsonArrayConst>(), (int)v.is<JsonObjectConst>(), (int)v.isNull(), "");
+        out = string(buf) + (js.c_str() ? "S" + hexs(js.c_str(), js.size()) : string("null"));      // the string is appended outside the fixed buffer: it may be as long as the longest storable string
         if (js.c_str() && js.c_str()[js.size()] != 0) out += " NOT-NUL-TERMINATED";
         const char* cs = v.as<const char*>(); if ((cs == nullptr) != (js.c_str() == nullptr)) out += " CSTR-MISMATCH"; }
       string lg = HLOG();
